@@ -78,3 +78,32 @@ claim('C10',
       'Not decided: that each of ~4600 rows gives the same number through each spelling; numeric self-consistency '
       'of tabulated mass vs composition (data values).',
       'DESIGN.md section 4 C10')
+
+claim('C01',
+      'writer/reader delimiter-table extraction by path condition, field-coverage slices, forwarding',
+      'Decides necessary conditions of the round trip for every string at once: the table feature -> (bracket pair, '
+      'marker literal, link token) extracted from the serializer is accepted by the parser for the same feature '
+      '(extracted from the cursor-character equalities that dominate each _add_<feature> call); feature selectors '
+      'are disjoint; all 11 annotation fields flow through the parser result builder, the per-chain reset, the '
+      'serializer, __eq__ and dict(); Interval/Mod fields through serializer, __eq__, __hash__; include_plus reaches '
+      'every Mod.serialize; interval bounds are Boundaries and residue modifications Positions on both sides.',
+      'Not decided: that parse builds exactly the denoted structure for every grammatical string, '
+      'parse(serialize(a)) == a, index bookkeeping, value canonicalisation (value-level over an unbounded language). '
+      'Known finding: the serializer joins cross-linked chains with two backslashes while the parser recognises // '
+      '(pinned by tests).',
+      'DESIGN.md section 4 C01')
+
+claim('C09',
+      'cursor typestate analysis over the parser class, Union-field guard rule, raise/handler discipline over the '
+      'resolved call graph, loop-progress check on every syntactic path',
+      'Every operation that can raise in the call graph rooted at parse() is an obligation discharged for all '
+      'inputs: reads at the cursor happen only in a bounds-checked state (typestate with inferred method '
+      'summaries), str-only operations on Mod.val are guarded by isinstance, every explicit raise is in the '
+      'ValueError family, every cursor loop advances/returns/raises/breaks on each syntactic path and the start '
+      'phase returns without consuming only on characters the middle phase consumes (termination). Deferred clause: '
+      'in the graphs rooted at mod_mass/mod_comp/_parse_mod_delta_mass_only raises are ValueError subclasses, '
+      'handlers re-raise or are in the reviewed table, the resolvers end in a raise, accumulating callers wrap no '
+      'resolver call in a swallowing handler.',
+      'Not decided: serialisability of every returned annotation; exceptions of the charge-adduct sub-grammar at '
+      'mass time. Assumes advancing helper calls consume at least one character when guarded by their cursor test.',
+      'DESIGN.md section 4 C09')
